@@ -54,45 +54,56 @@ Definition match_small (sh : Z) (o : qobs) (r : qres) : bool :=
   | _ => false
   end.
 
+(* the property's own order claim, checked on the observation itself whenever 0 < c *)
+Definition orders_ok (n : Z) (c : Q) (o : qobs) : bool :=
+  Qle_bool c 0 || ((0 <=? o_lo o) && (o_lo o <? o_hi o) && (o_hi o <=? n + 1)).
+
 Definition is_full (n : Z) (o : qobs) : bool :=
   (o_lo o =? 0) && (o_hi o =? n + 1) && negb (o_amb o) && xeq (XFin 1) (o_conf o).
 
-(* one item of an op-0 line; returns (verdict code, tag) and diagnostics *)
-Definition check_small_item (n : Z) (q : Q) (qbits : Z) (ws : list Z) (e : Z) (exact : bool)
+(* one item of an op-0 line; returns (verdict code, tag) and diagnostics.  [g] is the transition
+   graph of the line over the integer masses w_k (unit 1/D, D = 2^(e n)); c = cn/2^j is compared as
+   the integer cn * D against (2^j) * accum *)
+Definition check_small_item (P : Z -> Q) (n : Z) (x : Z) (qbits : Z) (g : list (list (st * list st))) (e : Z) (exact : bool)
                             (c : Q) (o : qobs) : Z * Z * list Z :=
   if negb ((o_n o =? n) && (o_qbits o =? qbits)) then (V_MISMATCH, 1, [0])
+  else if negb (orders_ok n c o) then (V_MISMATCH, 1, [9])
   else if Qle_bool 1 c then (if is_full n o then (V_OK, 3, []) else (V_MISMATCH, 3, [1]))
   else
-    let cd := Zpos (Qden c) in
-    let j := Z.log2 cd in
-    let ws' := map (fun w => Z.shiftl w j) ws in
+    let sc := inject_Z (Zpos (Qden c)) in
     let c' := inject_Z (Z.shiftl (Qnum c) (e * n)) in
     let eps := if exact then 0%Q else ieps_border in
-    match qci_small_set (scaled_pmf n ws') eps n (mode_candidates n q exact) c' with
-    | None => (V_MALFORMED, 1, [2])
-    | Some outs =>
-        let tag := Z.lor 1 (Z.lor (if exact then 64 else 0)
-                   (Z.lor (if 2 <=? o_hi o - o_lo o then 4 else 0)
-                   (Z.lor (if o_amb o then 8 else 0)
-                   (Z.lor (if (o_lo o =? 0) && (o_hi o =? n + 1) then 16 else 0)
-                          (if (1 <? Z.of_nat (length outs)) then 32 else 0))))) in
-        if existsb (match_small (e * n + j) o) outs
-        then ((if (1 <? Z.of_nat (length outs)) then V_BORDERLINE else V_OK), tag, [])
-        else (V_MISMATCH, tag,
-              match outs with
-              | r :: _ => [2; r_lo r; r_hi r; (if r_amb r then 1 else 0); Qnum (r_conf r); e * n + j; Z.of_nat (length outs)]
-              | [] => [2]
-              end)
-    end.
+    let outs := qci_small_set P eps n g sc c' in
+    (* for small n the deterministic model function [qci_small] (the one the theorems are about) is run
+       as well, on the same integer masses: its result must be one of the admissible outcomes *)
+    let det_ok := if 10 <? n then true else
+                  match qci_small (fun k => (sc * P k)%Q) n x c' with
+                  | Some r => existsb (fun t => (r_lo r =? r_lo t) && (r_hi r =? r_hi t) && Bool.eqb (r_amb r) (r_amb t)
+                                                && Qeq_bool (r_conf r) (sc * r_conf t)%Q) outs
+                  | None => false
+                  end in
+    if negb det_ok then (V_MALFORMED, 1, [8]) else
+    let tag := Z.lor 1 (Z.lor (if exact then 64 else 0)
+               (Z.lor (if 2 <=? o_hi o - o_lo o then 4 else 0)
+               (Z.lor (if o_amb o then 8 else 0)
+               (Z.lor (if (o_lo o =? 0) && (o_hi o =? n + 1) then 16 else 0)
+                      (if (1 <? Z.of_nat (length outs)) then 32 else 0))))) in
+    if existsb (match_small (e * n) o) outs
+    then ((if (1 <? Z.of_nat (length outs)) then V_BORDERLINE else V_OK), tag, [])
+    else (V_MISMATCH, tag,
+          match outs with
+          | r :: _ => [2; r_lo r; r_hi r; (if r_amb r then 1 else 0); Qnum (r_conf r); e * n; Z.of_nat (length outs)]
+          | [] => [2]
+          end).
 
-Fixpoint run_small (n : Z) (q : Q) (qbits : Z) (ws : list Z) (e : Z) (exact : bool)
+Fixpoint run_small (P : Z -> Q) (n : Z) (x : Z) (qbits : Z) (g : list (list (st * list st))) (e : Z) (exact : bool)
                    (items : list (Q * qobs)) (idx tag : Z) (border : bool) : list Z :=
   match items with
   | [] => verdict (if border then V_BORDERLINE else V_OK) tag (-1) []
   | (c, o) :: rest =>
-      let '(code, t, dg) := check_small_item n q qbits ws e exact c o in
+      let '(code, t, dg) := check_small_item P n x qbits g e exact c o in
       if (code =? V_OK) || (code =? V_BORDERLINE)
-      then run_small n q qbits ws e exact rest (idx + 1) (Z.lor tag t) (border || (code =? V_BORDERLINE))
+      then run_small P n x qbits g e exact rest (idx + 1) (Z.lor tag t) (border || (code =? V_BORDERLINE))
       else verdict code (Z.lor tag t) idx dg
   end.
 
@@ -110,7 +121,11 @@ Definition check_C11 (line : list Z) : list Z :=
               let e := Z.log2 d in
               if negb (d =? Z.shiftl 1 e) then verdict V_MALFORMED 0 (-1) [] else
               let ws := binom_weights n (Qnum q) (d - Qnum q) in
-              run_small n q qb ws e (exact_regime n q) items 0 0 false
+              let exact := exact_regime n q in
+              match qci_graph (scaled_pmf n ws) (if exact then 0%Q else ieps_border) n (mode_candidates n q exact) with
+              | Some g => run_small (scaled_pmf n ws) n (mode_x n q) qb g e exact items 0 0 false
+              | None => verdict V_MALFORMED 0 (-1) [7]
+              end
           | _ => verdict V_MALFORMED 0 (-1) []
           end
       | None => verdict V_MALFORMED 0 (-1) []
@@ -124,6 +139,7 @@ Definition check_C11 (line : list Z) : list Z :=
           | XFin q =>
               if (n <=? qci_threshold) || Qltb q 0 || Qltb 1 q then verdict V_MALFORMED 0 (-1) [] else
               if negb ((o_n o =? n) && (o_qbits o =? qb)) then verdict V_MISMATCH 128 0 [] else
+              if negb (orders_ok n c o) then verdict V_MISMATCH 128 9 [] else
               if Qle_bool 1 c then (if is_full n o then verdict V_OK 130 (-1) [] else verdict V_MISMATCH 130 1 []) else
               match mu, l1, r1, b1, b2, ch, cl, ch1 with
               | XFin mu, XFin l1, XFin r1, XFin b1, XFin b2, XFin ch, XFin cl, XFin ch1 =>
